@@ -403,3 +403,19 @@ def write_replay(pid: str, f: Finding) -> str:
 
 def now():
     return time.time()
+
+
+def positions(fn, _cache={}):
+    """id(node) -> position in a depth-first, source-order walk of the function (the order statements are written in; line
+    numbers do not give it once helper bodies were inlined, since those keep the helper's line numbers)."""
+    key = id(fn)
+    if key not in _cache:
+        out = {}
+
+        def rec(n):
+            out[id(n)] = len(out)
+            for c in ast.iter_child_nodes(n):
+                rec(c)
+        rec(fn)
+        _cache[key] = out
+    return _cache[key]
